@@ -329,7 +329,8 @@ namespace AIToolbox::MDP {
         // Create reciprocal for fast division
         const double visitSumReciprocal = 1.0 / visitSum;
 
-        if constexpr (IsExperienceEigen<E>) {
+        // A dense visit table cannot be assigned to a sparse row: it takes the manual path below.
+        if constexpr (IsExperienceEigen<E> && requires (SparseMatrix2D t, const E e) { t.row(0) = e.getVisitsTable(0).row(0).template cast<double>() * 1.0; }) {
             transitions_[a].row(s) = experience_.getVisitsTable(a).row(s).template cast<double>() * visitSumReciprocal;
         } else {
             // Normalize
